@@ -310,7 +310,7 @@ fn random_env_history(rng: &mut Xoroshiro128StarStar, market: bool, overrun: boo
     let mut ops = vec![];
     // batches never exceed the step size (that domain is the recorded C05 finding) - but small step sizes are filled EXACTLY, and the clock need not start on a multiple
     let step_size: u64 = if overrun { 2 } else { [64, 4, 7, 64][rng.gen_range(0..4)] };
-    let t0: u64 = if rng.gen_bool(0.5) { 0 } else { rng.gen_range(1..50) };
+    let t0: u64 = match rng.gen_range(0..8) { 0 | 1 | 2 | 3 => 0, 4 | 5 => rng.gen_range(1..50), 6 => (1u64 << 32) - rng.gen_range(1..40), _ => (1u64 << 40) + rng.gen_range(0..1000) };
     let mut in_batch = 0u64;
     for _ in 0..len {
         if !overrun && in_batch >= step_size {
@@ -341,7 +341,13 @@ fn random_env_history(rng: &mut Xoroshiro128StarStar, market: bool, overrun: boo
     }
     ops.push(EOp::Step);
     ops.push(EOp::Step);
-    EnvHistory { env: if market { "market_env".into() } else { "env".into() }, ticks: vec![2, 1], step_size, trading: true, seed: rng.gen(), t0, ops, note: String::new() }
+    // one history in eight starts with trading disabled and switches it on somewhere along the way
+    let trading = rng.gen_range(0..8) != 0;
+    if !trading {
+        let at = rng.gen_range(0..ops.len());
+        ops.insert(at, EOp::Enable);
+    }
+    EnvHistory { env: if market { "market_env".into() } else { "env".into() }, ticks: vec![2, 1], step_size, trading, seed: rng.gen(), t0, ops, note: String::new() }
 }
 
 fn matches(f: &Failure, prop: &str) -> bool {
